@@ -43,7 +43,7 @@ impl Query for SelectKeyCountQuery {
 
         for id in db_ids {
             let key_count = db.key_count(id)?;
-            total_count += key_count;
+            total_count = total_count.saturating_add(key_count);
             result.elements.push(DbElement {
                 id,
                 from: db.from_id(id)?,
